@@ -25,15 +25,22 @@ Theorem C12_accepted_trace_power_loss :
 Proof. exact accepted_trace_power_loss. Qed.
 
 (* The "equivalently" clause, as what the acceptor demands of every observed event: a store on
-   behalf of a record happens only when that record is synced (D1); a truncation never passes the
-   records stored before the last flush of the tables (D2). *)
+   behalf of a record happens only when that record is synced (D1); a truncation is accepted only if every cell stored to since the last sync of its
+   file is written again by a record that stays in the log (D2 in its weakest sound form: the
+   recovery theorem above is proved from exactly this guard). *)
 Theorem C12_store_only_synced :
   forall w w', wstep w EStore = Some w' -> (st w < s w)%nat.
 Proof. exact store_needs_sync. Qed.
 
-Theorem C12_truncate_only_flushed :
-  forall w n w', wstep w (ETruncate n) = Some w' -> (t w <= n <= fl w)%nat.
-Proof. exact truncate_needs_flush. Qed.
+Theorem C12_truncate_only_covered :
+  forall w n w', wstep w (ETruncate n) = Some w' ->
+  (t w <= n <= st w)%nat /\ forall l, dirty w l = true -> wrs (sub (recs w) n (st w)) l || wr (cur w) l = true.
+Proof. exact truncate_needs_cover. Qed.
+
+(* ... which the order "flush every table, then truncate what was stored before" always meets *)
+Theorem C12_truncate_after_flush_accepted :
+  forall w n, (t w <= n <= st w)%nat -> dirtyl w = [] -> exists w', wstep w (ETruncate n) = Some w'.
+Proof. exact truncate_after_flush. Qed.
 
 (* and both are needed: without D1 (a store for an unsynced record) or without D2 (truncating past
    the flush point) a power loss leaves a state that is no prefix *)
@@ -60,6 +67,7 @@ Proof. eexists. split; [vm_compute; reflexivity|]. vm_compute. split; reflexivit
 Print Assumptions C12_power_loss_recovers_prefix.
 Print Assumptions C12_accepted_trace_power_loss.
 Print Assumptions C12_store_only_synced.
-Print Assumptions C12_truncate_only_flushed.
+Print Assumptions C12_truncate_only_covered.
+Print Assumptions C12_truncate_after_flush_accepted.
 Print Assumptions C12_D1_needed.
 Print Assumptions C12_D2_needed.
